@@ -1450,3 +1450,157 @@ Proof.
   split; [exact R|]. split; [exact F|]. split; [exact W|].
   destruct (hstep_keeps cols now st) as (_ & Rw & _). exact Rw.
 Qed.
+
+(* ------------------------------------------------------------------------------------------ *)
+(* tick injection: the full-strength statement fails (witness), the guarded one holds         *)
+(* ------------------------------------------------------------------------------------------ *)
+
+(* "every declared animation variable is ticked in loop()" is false: one LCD (name 0) with a single
+   lcd.animate("scroll", ...) placed inside `while True:` *)
+Lemma tick_injected_refuted :
+  exists (setup loop : list site) (v : Z * Z * style),
+    In v (all_vars setup loop) /\ ~ In v (loop_ticks setup loop).
+Proof.
+  exists [], [(0, Scroll)], (0, 0, Scroll). split.
+  - vm_compute. left. reflexivity.
+  - vm_compute. intros [].
+Qed.
+
+(* guard: no lcd.animate call inside the main loop; then the tick calls are exactly the declared
+   variables, each once *)
+Lemma tick_injected_partial setup :
+  loop_ticks setup [] = all_vars setup [] /\ NoDup (loop_ticks setup []) /\
+  forall pre n sty post, setup = pre ++ (n, sty) :: post -> In (n, count_name n pre, sty) (loop_ticks setup []).
+Proof.
+  split; [apply loop_ticks_all_vars|]. split; [apply loop_ticks_NoDup|].
+  intros pre n sty post E. exact (proj1 (setup_site_ticked setup [] pre n sty post E)).
+Qed.
+
+(* ------------------------------------------------------------------------------------------ *)
+(* host: whole-object statements over tick histories                                          *)
+(* ------------------------------------------------------------------------------------------ *)
+
+Lemma hticks_no_delay l nows l' evs : hwf l -> hticks l nows = Some (l', evs) ->
+  Forall hno_delay evs /\ hwf l'.
+Proof.
+  revert l l' evs; induction nows as [|now rest IH]; intros l l' evs Hw H; cbn [hticks] in H.
+  - inversion H; subst. split; [constructor|exact Hw].
+  - destruct (htick_ok l now Hw) as (l1 & ev & E & Hw1 & _ & _ & _ & Hnd & _).
+    rewrite E in H. destruct (hticks l1 rest) as [[l2 evs2]|] eqn:E2; [|discriminate].
+    inversion H; subst. destruct (IH _ _ _ Hw1 E2) as [F W]. split; [constructor; assumption|exact W].
+Qed.
+
+(* animate + any tick history on a reachable object: no sleep anywhere *)
+Lemma start_nonblocking_host l sty row text speed lp l1 ev0 nows l2 evs :
+  hreach l -> hanimate l sty row text speed lp = Some (l1, ev0) -> hticks l1 nows = Some (l2, evs) ->
+  hno_delay ev0 /\ Forall hno_delay evs.
+Proof.
+  intros Hr Ha Ht. pose proof (hreach_wf l Hr) as Hw.
+  destruct (hanimate_ok l sty row text speed lp l1 ev0 Hw Ha) as (Hw1 & _ & _ & _ & _ & Hnd & _).
+  split; [exact Hnd|]. exact (proj1 (hticks_no_delay l1 nows l2 evs Hw1 Ht)).
+Qed.
+
+(* one tick of the whole object: every buffer assignment is a full-width row of an animation that
+   was due at this tick *)
+Lemma frame_geometry_host_object l now l' ev : hwf l -> htick l now = Some (l', ev) ->
+  hwf l' /\ forall r s, In (HRow r s) ev -> zlen s = l_cols l /\
+        exists st, In st (l_anims l) /\ h_row st = r /\ hgate st now = true.
+Proof.
+  intros Hw H. destruct (htick_ok l now Hw) as (l1 & ev1 & E & Hw1 & _ & _ & _ & _ & G).
+  rewrite E in H. inversion H; subst. split; assumption.
+Qed.
+
+(* animate validates the row: it fails exactly outside 0 <= row < rows, leaving nothing registered *)
+Lemma hanimate_validates l sty row text speed lp : hwf l ->
+  (hanimate l sty row text speed lp = None <-> ~ (0 <= row < l_rows l)).
+Proof.
+  intro Hw. pose proof (validate_row_true (l_rows l) row) as V. unfold hanimate.
+  destruct (validate_row (l_rows l) row) eqn:E.
+  - split; [|intro N; exfalso; apply N; apply V; reflexivity].
+    assert (Hr : 0 <= row < l_rows l) by (apply V; reflexivity).
+    destruct Hw as (Hc & (Hb & _) & _).
+    destruct sty; try discriminate;
+      match goal with |- context [hline ?c ?r ?b ?row ?t] =>
+        rewrite (hline_eq c r b row t Hc Hb Hr) end; discriminate.
+  - split; [intros _ N; apply V in N; discriminate|reflexivity].
+Qed.
+
+(* the executable single-animation run is an instance of [hsteps] *)
+Lemma hrun1_hsteps cols rows st buf nows stn bufn tr :
+  1 <= cols -> buf_wf cols rows buf -> 0 <= h_row st < rows ->
+  hrun1 cols rows st buf nows = Some (stn, bufn, tr) -> hsteps cols rows st nows stn tr.
+Proof.
+  intro Hc. revert st buf stn bufn tr; induction nows as [|now rest IH]; intros st buf stn bufn tr Hw Hr H;
+    cbn [hrun1] in H.
+  - inversion H; subst. constructor.
+  - destruct (htick1 cols rows now st buf) as [[[st1 b1] ev]|] eqn:E; [|discriminate].
+    destruct (hrun1 cols rows st1 b1 rest) as [[[st2 b2] tr2]|] eqn:E2; [|discriminate].
+    inversion H; subst.
+    destruct (frame_geometry_host_tick cols rows now st buf st1 b1 ev Hc Hw Hr E) as (_ & _ & Hw1 & Hr1).
+    eapply hs_cons; [exact Hw|exact E|].
+    eapply IH; [exact Hw1|rewrite Hr1; exact Hr|exact E2].
+Qed.
+
+(* ------------------------------------------------------------------------------------------ *)
+(* non-vacuity witnesses                                                                      *)
+(* ------------------------------------------------------------------------------------------ *)
+
+Lemma ex_tick_times : tick_times_ok [1; 1; 50; 101; 101; 350].
+Proof. unfold tick_times_ok. cbn [nondecr]. repeat split; lia. Qed.
+
+Lemma ex_device_scroll_run :
+  let r := drun1 Scroll 3 (fst (dstart Scroll 3 0 [65; 66] 100 false)) (map (fun k => 60 * Z.of_nat k) (seq 1 14)) in
+  step_count (snd r) = 6 /\ dsteps_total Scroll 3 [65; 66] = 6 /\ d_active (fst r) = false /\
+  step_times (snd r) = [60; 180; 300; 420; 540; 660] /\
+  d_active (fst (drun1 Scroll 3 (fst (dstart Scroll 3 0 [65; 66] 100 false)) (map (fun k => 60 * Z.of_nat k) (seq 1 9)))) = true.
+Proof. vm_compute. repeat split; reflexivity. Qed.
+
+Lemma ex_device_bounce_frame :
+  let st0 := fst (dstart Bounce 3 1 [65] 0 true) in
+  get_row 1 (apply_devs (snd (dtick Bounce 3 5 st0)) (blank_matrix 3 2)) = [32; 65; 32] /\
+  get_row 0 (apply_devs (snd (dtick Bounce 3 5 st0)) (blank_matrix 3 2)) = [32; 32; 32].
+Proof. vm_compute. split; reflexivity. Qed.
+
+Lemma ex_host_object :
+  exists l0 l1 l2 e1 e2 l3 evs,
+    hnew 8 2 = Some l0 /\
+    hanimate l0 Typewriter 0 [72; 105; 33] 10 false = Some (l1, e1) /\
+    hanimate l1 Scroll 1 [65; 66] 0 true = Some (l2, e2) /\
+    hreach l2 /\ hwf l2 /\
+    hticks l2 [1; 5; 11; 21; 31; 41] = Some (l3, evs) /\
+    map h_active (l_anims l3) = [false; true] /\
+    get_row 0 (l_buf l3) = [72; 105; 33; 32; 32; 32; 32; 32].
+Proof.
+  destruct (hnew 8 2) as [l0|] eqn:E0; [|vm_compute in E0; discriminate].
+  assert (R0 : hreach l0) by (eapply hr_new; exact E0).
+  vm_compute in E0. injection E0 as <-.
+  match goal with R0 : hreach ?l |- _ =>
+    destruct (hanimate l Typewriter 0 [72; 105; 33] 10 false) as [[l1 e1]|] eqn:E1; [|vm_compute in E1; discriminate] end.
+  assert (R1 : hreach l1) by (eapply hr_animate; [exact R0|exact E1]).
+  vm_compute in E1. injection E1 as <- <-.
+  match goal with R1 : hreach ?l |- _ =>
+    destruct (hanimate l Scroll 1 [65; 66] 0 true) as [[l2 e2]|] eqn:E2; [|vm_compute in E2; discriminate] end.
+  assert (R2 : hreach l2) by (eapply hr_animate; [exact R1|exact E2]).
+  vm_compute in E2. injection E2 as <- <-.
+  match goal with R2 : hreach ?l |- _ =>
+    destruct (hticks l [1; 5; 11; 21; 31; 41]) as [[l3 evs]|] eqn:E3; [|vm_compute in E3; discriminate] end.
+  vm_compute in E3. injection E3 as <- <-.
+  do 7 eexists.
+  split; [reflexivity|]. split; [vm_compute; reflexivity|]. split; [vm_compute; reflexivity|].
+  split; [exact R2|]. split; [exact (hreach_wf _ R2)|].
+  split; [vm_compute; reflexivity|]. split; vm_compute; reflexivity.
+Qed.
+
+Lemma ex_host_hsteps :
+  exists stn tr, hsteps 8 2 (hstart Typewriter 0 [72; 105; 33] 10 false) [1; 5; 11; 21; 31; 41] stn tr /\
+                 h_active stn = false /\ step_count tr = 2.
+Proof.
+  destruct (hrun1 8 2 (hstart Typewriter 0 [72; 105; 33] 10 false) (repeat (spaces 8) 2) [1; 5; 11; 21; 31; 41])
+    as [[[stn bufn] tr]|] eqn:E; [|vm_compute in E; discriminate].
+  exists stn, tr. split.
+  - eapply hrun1_hsteps; [| |  |exact E].
+    + lia.
+    + split; [reflexivity|]. intros r [<-|[<-|[]]]; reflexivity.
+    + cbn. lia.
+  - vm_compute in E. injection E as <- _ <-. split; vm_compute; reflexivity.
+Qed.
